@@ -227,6 +227,26 @@ func (p *Proc) Call(rq Req, deadline time.Duration) Rep {
 		}
 		return rp
 	case <-time.After(deadline):
+		// A verdict "does not return" must be a fact about the call, not about the machine: a worker that is still
+		// burning CPU when its deadline passes (a starved machine, a long computation) gets more time, up to four more
+		// deadlines; one whose CPU time stands still is blocked, and is reported at once.
+		for ext := 0; ext < 4 && cpuAdvances(p.cmd.Process.Pid); ext++ {
+			select {
+			case r := <-ch:
+				if r.err == nil && len(r.line) > 0 {
+					var rp Rep
+					if err := json.Unmarshal(r.line, &rp); err == nil {
+						return rp
+					}
+				}
+				p.cmd.Wait()
+				msg := p.stderr.String()
+				p.Deaths++
+				p.spawn()
+				return Rep{ID: rq.ID, Class: "panic", Err: crashSummary(msg)}
+			case <-time.After(deadline):
+			}
+		}
 		p.cmd.Process.Kill()
 		p.cmd.Wait()
 		p.Deaths++
@@ -246,6 +266,34 @@ func (p *Proc) Close() {
 	case <-time.After(3 * time.Second):
 		p.cmd.Process.Kill()
 	}
+}
+
+// cpuAdvances: does the process (all its threads) consume CPU time right now?  (utime + stime of /proc/<pid>/stat,
+// sampled twice 400 ms apart; more than 2 ticks of difference counts as running)
+func cpuAdvances(pid int) bool {
+	read := func() (int64, bool) {
+		b, err := os.ReadFile(fmt.Sprintf("/proc/%d/stat", pid))
+		if err != nil {
+			return 0, false
+		}
+		s := string(b)
+		k := strings.LastIndex(s, ")")
+		if k < 0 {
+			return 0, false
+		}
+		f := strings.Fields(s[k+1:])
+		if len(f) < 13 {
+			return 0, false
+		}
+		var ut, st int64
+		fmt.Sscan(f[11], &ut)
+		fmt.Sscan(f[12], &st)
+		return ut + st, true
+	}
+	a, ok1 := read()
+	time.Sleep(400 * time.Millisecond)
+	b, ok2 := read()
+	return ok1 && ok2 && b-a > 2
 }
 
 // crashSummary keeps the panic message and the first gtree frames of a Go crash dump.
